@@ -17,8 +17,8 @@ from mc.pomdpspec import PSpec, SpecPOMDP
 
 ID = 'C07'
 RULE = ("POMDP specs: n=2 states x {1,2} actions x all outcome-distribution assignments {Dirac, 1/2-1/2} x reward patterns x "
-        "observation kernels per action from a 6-kernel menu (revealing, uninformative, noisy, half-informative, swapped, explicit "
-        "zero entries) x absorbing sets x initial beliefs x label variants (rotating); n=3 reduced. Per POMDP: BFS over beliefs "
+        "observation kernels per action from a 10-kernel menu (revealing, uninformative, noisy, half-informative, swapped, explicit "
+        "zero entries, rare observation with probability 1e-9, ...) x absorbing sets x initial beliefs x label variants (rotating); n=3 reduced. Per POMDP: BFS over beliefs "
         "reachable through the real BeliefMDP to depth D + quarter-lattice beliefs; every (belief, action, observation) incl. "
         "zero-probability observations. states = distinct (POMDP, exact belief) pairs; transitions = (belief, action, observation) "
         "filter evaluations + belief-MDP edges. Non-trivial = POMDP with >= 3 distinct reachable beliefs.")
@@ -49,8 +49,8 @@ def items(tier, seed):
     inits2 = [((0, one),), ((0, F(1, 4)), (1, F(3, 4)))]
     if tier == 'quick':
         gens = [
-            pomdpspec.enum_pomdps(2, 1, 2, [RP['state']], [(), (1,)], inits2, [F(9, 10)], kernel_level=2),
-            pomdpspec.enum_pomdps(2, 2, 1, [RP['mixed']], [(), (1,)], inits2[1:], [F(9, 10)], kernel_level=2),
+            pomdpspec.enum_pomdps(2, 1, 2, [RP['state']], [(), (1,), (0,)], inits2, [F(9, 10)], kernel_level=2),
+            pomdpspec.enum_pomdps(2, 2, 1, [RP['mixed']], [(), (0,)], inits2[1:], [F(9, 10)], kernel_level=2),
             pomdpspec.enum_pomdps(3, 1, 1, [RP['state']], [(2,)], [((0, F(1, 2)), (1, F(1, 2)))], [F(9, 10)]),
         ]
     else:
